@@ -103,10 +103,42 @@ func (x *Exec) native(name string, fn *ssa.Function, args []Value) (Value, bool)
 	case "fmt.Sprintf", "fmt.Errorf":
 		format := mustStr(args[0])
 		var as []interface{}
-		if vals := x.sliceVals(args[1].(SliceV)); name == "fmt.Sprintf" && len(vals) == 1 {
-			if iv, ok := vals[0].(Iface); ok {
-				if t, ok := iv.v.(*Term); ok && !t.isC {
-					return &OpaqueStr{kind: "sprintf", num: t, fmt: format}, true
+		if vals := x.sliceVals(args[1].(SliceV)); name == "fmt.Sprintf" {
+			symbolic := false
+			for _, v := range vals {
+				if iv, ok := v.(Iface); ok {
+					switch u := iv.v.(type) {
+					case *Term:
+						symbolic = symbolic || !u.isC
+					case *Str:
+						_, conc := u.concrete()
+						symbolic = symbolic || !conc
+					case SliceV:
+						for _, b := range x.sliceBytes(u) {
+							symbolic = symbolic || !b.isC
+						}
+					case *OpaqueStr:
+						symbolic = true
+					}
+				}
+			}
+			if symbolic {
+				// formatting of symbolic operands: an uninterpreted function of (format, operands)
+				return &OpaqueStr{kind: "sprintf", fmt: format, args: vals}, true
+			}
+		}
+		if name == "fmt.Errorf" {
+			// an error message built from symbolic operands: keep the error, abstract the text
+			for _, v := range x.sliceVals(args[1].(SliceV)) {
+				if iv, ok := v.(Iface); ok {
+					if t, ok := iv.v.(*Term); ok && !t.isC {
+						return x.newError("fmt.Errorf(" + format + ") with symbolic operands"), true
+					}
+					if st, ok := iv.v.(*Str); ok {
+						if _, conc := st.concrete(); !conc {
+							return x.newError("fmt.Errorf(" + format + ") with symbolic operands"), true
+						}
+					}
 				}
 			}
 		}
@@ -218,6 +250,44 @@ func (x *Exec) native(name string, fn *ssa.Function, args []Value) (Value, bool)
 			panic(abortPath{"FindAllStringIndex on symbolic text without a harness model", false})
 		}
 		return x.call(model, []Value{strOf(rePattern(re)), s, args[2]}, nil), true
+	case "(*regexp.Regexp).ReplaceAllStringFunc":
+		// documented contract: the non-matching parts of src in order, each match replaced by repl(match)
+		re, isRe := args[0].(Ptr).o.(*Cell).v.(Native).v.(*regexp.Regexp)
+		if !isRe {
+			panic(abortPath{"ReplaceAllStringFunc on a symbolic-pattern regexp", false})
+		}
+		src := args[1].(*Str)
+		f := args[2].(*Closure)
+		var locs [][2]int
+		if conc, ok := src.concrete(); ok {
+			for _, l := range re.FindAllStringIndex(conc, -1) {
+				locs = append(locs, [2]int{l[0], l[1]})
+			}
+		} else {
+			model := x.harnessPkg.Func("verifRegexFindAll")
+			if model == nil {
+				panic(abortPath{"ReplaceAllStringFunc on symbolic text without a harness model", false})
+			}
+			r := x.call(model, []Value{strOf(rePattern(re)), src, BV(^uint64(0), 64)}, nil).(SliceV)
+			for i := 0; i < r.len; i++ {
+				pr := load(r.a.e[r.off+i]).(SliceV)
+				locs = append(locs, [2]int{concInt(load(pr.a.e[pr.off])), concInt(load(pr.a.e[pr.off+1]))})
+			}
+		}
+		var out []*Term
+		prev := 0
+		for _, l := range locs {
+			out = append(out, src.b[prev:l[0]]...)
+			rep := x.call(f.fn, []Value{&Str{b: src.b[l[0]:l[1]]}}, f.bind).(*Str)
+			out = append(out, rep.b...)
+			prev = l[1]
+		}
+		out = append(out, src.b[prev:]...)
+		return &Str{b: out}, true
+	case "strings.Index":
+		return x.indexSeq(args[0].(*Str).b, args[1].(*Str).b), true
+	case "bytes.Index":
+		return x.indexSeq(x.sliceBytes(args[0].(SliceV)), x.sliceBytes(args[1].(SliceV))), true
 	case "(*regexp.Regexp).MatchString":
 		re := args[0].(Ptr).o.(*Cell).v.(Native).v.(*regexp.Regexp)
 		return Bool(re.MatchString(mustStr(args[1]))), true
@@ -324,12 +394,9 @@ func (x *Exec) native(name string, fn *ssa.Function, args []Value) (Value, bool)
 		a, b := x.sliceBytes(args[0].(SliceV)), x.sliceBytes(args[1].(SliceV))
 		return x.strEq(&Str{b: a}, &Str{b: b}), true
 	case "internal/bytealg.IndexString":
-		a, okA := args[0].(*Str).concrete()
-		b, okB := args[1].(*Str).concrete()
-		if okA && okB {
-			return BV(uint64(int64(strings.Index(a, b))), 64), true
-		}
-		panic(abortPath{"IndexString symbolic", false})
+		return x.indexSeq(args[0].(*Str).b, args[1].(*Str).b), true
+	case "internal/bytealg.Index":
+		return x.indexSeq(x.sliceBytes(args[0].(SliceV)), x.sliceBytes(args[1].(SliceV))), true
 	case "internal/bytealg.MakeNoZero":
 		n := int(args[0].(*Term).c)
 		a := &ArrayObj{e: make([]Obj, n)}
@@ -344,6 +411,39 @@ func (x *Exec) native(name string, fn *ssa.Function, args []Value) (Value, bool)
 		return args[0], true
 	}
 	return nil, false
+}
+
+// indexSeq: first position where needle occurs in hay (-1 if none), forking per position
+func (x *Exec) indexSeq(hay, needle []*Term) Value {
+	n, m := len(hay), len(needle)
+	if m == 0 {
+		return BV(0, 64)
+	}
+	if m > n {
+		return BV(^uint64(0), 64)
+	}
+	at := func(i int) *Term {
+		r := Bool(true)
+		for k := 0; k < m; k++ {
+			r = And(r, bvcmp("=", hay[i+k], needle[k]))
+		}
+		return r
+	}
+	cnt := n - m + 1
+	i := x.choose(cnt+1, func(i int) *Term {
+		r := Bool(true)
+		for k := 0; k < i && k < cnt; k++ {
+			r = And(r, Not(at(k)))
+		}
+		if i < cnt {
+			r = And(r, at(i))
+		}
+		return r
+	})
+	if i == cnt {
+		return BV(^uint64(0), 64)
+	}
+	return BV(uint64(i), 64)
 }
 
 // rePattern returns the AWK-level pattern of a compiled regexp (goawk wraps patterns as "(?s:...)")
@@ -374,10 +474,27 @@ type OpaqueStr struct {
 	kind string // "int" | "float" | "sprintf"
 	num  *Term
 	fmt  string
+	args []Value // sprintf operands (interfaces)
 }
 
 func (x *Exec) opaqueEq(a, b *OpaqueStr) *Term {
-	if a.kind != b.kind || a.fmt != b.fmt || a.num.sort != b.num.sort {
+	if a.kind == "sprintf" && b.kind == "sprintf" {
+		// equal format and pairwise equal operands (same dynamic type, same value) give the same text
+		if a.fmt != b.fmt || len(a.args) != len(b.args) {
+			return Bool(false)
+		}
+		r := Bool(true)
+		for i := range a.args {
+			ai, aok := a.args[i].(Iface)
+			bi, bok := b.args[i].(Iface)
+			if !aok || !bok || ai.t == nil || bi.t == nil || !types.Identical(ai.t, bi.t) {
+				return Bool(false)
+			}
+			r = And(r, x.sameVal(ai.v, bi.v))
+		}
+		return r
+	}
+	if a.kind != b.kind || a.fmt != b.fmt || a.num == nil || b.num == nil || a.num.sort != b.num.sort {
 		panic(abortPath{"comparison of differently formatted opaque number strings", false})
 	}
 	if a.num.sort.FP {
